@@ -131,9 +131,14 @@ def worker(sh):
             cur = out[1 + repeat]
             cursors = [] if cur == '-' else [int(x) for x in cur.split(',')]
             prep = [(pz or qz) for k, pz, qz in desc if k == 'p']
+            # the private cursor (visible through the C mirror struct) may never leave the 68-entry table: an intra-object overrun is
+            # invisible to ASan.  (Where exactly it stands for a skipped pair is the implementation's business; a live pair that consumed
+            # fewer than 68 entries shows in the value.)
             for c, skipped in zip(cursors, prep):
-                if c != (0 if skipped else NUM_COEFFS):
-                    fail('prepared pair consumed %d coefficients (expected %d)' % (c, 0 if skipped else NUM_COEFFS), 'cursor:pairing_sum')
+                if c > NUM_COEFFS:
+                    fail('prepared pair cursor at %d, beyond the %d-entry coefficient table' % (c, NUM_COEFFS), 'cursor:pairing_sum:beyond-table')
+                elif not skipped and c != NUM_COEFFS:
+                    fail('live prepared pair consumed %d of %d coefficients' % (c, NUM_COEFFS), 'cursor:pairing_sum')
             sh.event('pairing_sum', cls, trivial=False)
             if sh.index == 0:
                 sh.sample({'shape': sig, 'sum_ab_mod_r': hex(total), 'cursors': cursors}, limit=4)
